@@ -57,26 +57,41 @@ def d1(ck: Check) -> None:
         cn = fm.cfgn(ap)
         d = ap.args[0]
         probs = []
-        tests = [(t, p, b) for t, p, b in fm.facts(cn) if b.loop is None and isinstance(t, ast.Compare) and ".items()" in text(t)]
+
+        def items_of(e, at):
+            """`X.items()` (directly or through a local) -> the expression X"""
+            e2, at2 = fm.deref_at(e, at)
+            if isinstance(e2, ast.Call) and isinstance(e2.func, ast.Attribute) and e2.func.attr == "items" and not e2.args:
+                return e2.func.value, at2
+            return None, at2
+
+        tests = []
+        for t, p, b in fm.facts(cn):
+            if b.loop is None and isinstance(t, ast.Compare) and len(t.ops) == 1:
+                tnode = fm.cfg.nodes[next(iter(fm.cfg.g.predecessors(b.id)))]
+                l_, lat = items_of(t.left, tnode)
+                r_, rat = items_of(t.comparators[0], tnode)
+                if l_ is not None and r_ is not None:
+                    tests.append((t, p, b, (l_, lat), (r_, rat)))
         if not tests:
             probs.append("a driver set is reported without testing that its domain of influence contains the motif")
         else:
-            t, pol, b = tests[-1]
-            ok_dir = pol and isinstance(t.ops[0], ast.LtE) and text(t.left) == f"{motif_p}.items()"
-            ok_dir = ok_dir or (pol and isinstance(t.ops[0], ast.GtE) and text(t.comparators[0]) == f"{motif_p}.items()")
+            t, pol, b, (l_, lat), (r_, rat) = tests[-1]
+            if isinstance(t.ops[0], ast.GtE):
+                (l_, lat), (r_, rat) = (r_, rat), (l_, lat)
+            ok_dir = pol and isinstance(t.ops[0], (ast.LtE, ast.GtE)) and text(fm.deref(l_, lat)) == motif_p
             if not ok_dir:
                 probs.append(f"acceptance test is `{text(t)}` (polarity {pol}); a driver set may only be accepted when the full motif "
                              f"`{motif_p}` is contained in its domain of influence")
-            other = t.comparators[0] if text(t.left) == f"{motif_p}.items()" else t.left
-            L = other.func.value if isinstance(other, ast.Call) and isinstance(other.func, ast.Attribute) else None
-            tnode = fm.cfg.nodes[next(iter(fm.cfg.g.predecessors(b.id)))]
-            sd_ = fm.single_def(L.id, tnode) if isinstance(L, ast.Name) else None
-            src = sd_[1] if sd_ else L
+            L = r_ if ok_dir else (r_ if text(fm.deref(l_, lat)) == motif_p else l_)
+            Lat = rat if L is r_ else lat
+            src, sat = fm.deref_at(L, Lat)
+            sd_ = (sat, src) if src is not L else None
             if not (isinstance(src, ast.Call) and isinstance(src.func, ast.Name) and src.func.id == "percolate_space" and len(src.args) == 2):
                 probs.append(f"the domain of influence is `{text(src)[:60] if src is not None else '?'}`, not percolate_space(bn, ...) of "
                              f"this very driver set (a cached or shared result can belong to another network or another set)")
             else:
-                a1 = src.args[1]
+                a1 = fm.deref(src.args[1], sat)
                 parts = [text(x) for x in (a1.left, a1.right)] if isinstance(a1, ast.BinOp) and isinstance(a1.op, ast.BitOr) else []
                 if text(d) not in parts or "assume_fixed" not in parts:
                     probs.append(f"the percolated space `{text(a1)}` is not `{text(d)} | assume_fixed`")
@@ -163,7 +178,13 @@ def d3(ck: Check) -> None:
     f = fm.f
     sdp, tgt = f.params()[0], f.params()[1]
     adds = [n for n in own_walk(f.node) if isinstance(n, ast.Call) and isinstance(n.func, ast.Attribute) and n.func.attr == "add"
-            and "hot" in text(n.func.value)]
+            and isinstance(n.func.value, ast.Name) and len(n.args) == 1
+            and any(isinstance(t, ast.AST) and any(isinstance(c_, ast.Call) and callee_name(c_) in ("intersect", "is_subspace", "node_is_minimal")
+                                                   for c_ in ast.walk(fm.deref(t, b_) if isinstance(t, ast.Name) else t))
+                    or any(isinstance(x_, ast.Name) and any(isinstance(c_, ast.Call) and callee_name(c_) in ("intersect", "is_subspace", "node_is_minimal")
+                                                            for v_ in [fm.deref(x_, b_)] for c_ in ast.walk(v_))
+                           for x_ in ast.walk(t))
+                    for t, p_, b_ in fm.facts(fm.cfgn(n)))]
     if len(adds) != 1:
         raise AnalysisError("anchor vanished: hot-lava classification in successions_to_target")
     ad = adds[0]
@@ -215,50 +236,154 @@ def d3(ck: Check) -> None:
         probs.append(f"classification ranges over `{text(loops[0].iter)}`, not over all nodes")
     ck.ob("D3", fm, f.stmt_of(ad), not probs, "; ".join(probs) if probs else
           "hot = not consistent or (not goal and minimal), for every node", key="hot lava predicate")
-    # descendant sets
+    # "reaches a forbidden node" (the node itself included): recognised complete constructions only
+    HOT = ad.func.value.id
+    dag = f"{sdp}.dag"
+
+    def closure_maps():
+        """D with D[s] = set(descendants(dag, s)) + {s} for every node s  ->  {name: problems}"""
+        out = {}
+        for n in own_walk(f.node):
+            if isinstance(n, ast.Assign) and isinstance(n.targets[0], ast.Subscript) and isinstance(n.targets[0].value, ast.Name):
+                v, at = fm.deref_at(n.value, fm.cfgn(n))
+                local = n.value.id if isinstance(n.value, ast.Name) else None
+                inner = v.args[0] if isinstance(v, ast.Call) and callee_name(v) in ("set", "frozenset") and v.args else v
+                extra_self = False
+                if isinstance(inner, ast.BinOp) and isinstance(inner.op, ast.BitOr):
+                    l_, r_ = inner.left, inner.right
+                    for x_, y_ in ((l_, r_), (r_, l_)):
+                        if isinstance(y_, ast.Set) and len(y_.elts) == 1 and text(y_.elts[0]) == text(n.targets[0].slice):
+                            inner, extra_self = x_, True
+                            inner = inner.args[0] if isinstance(inner, ast.Call) and callee_name(inner) in ("set", "frozenset") and inner.args else inner
+                            break
+                if not (isinstance(inner, ast.Call) and (dotted(inner.func) or "").split(".")[-1] == "descendants"):
+                    continue
+                D = n.targets[0].value.id
+                key = text(n.targets[0].slice)
+                pr = []
+                if not (len(inner.args) == 2 and text(inner.args[0]) == dag and text(inner.args[1]) == key):
+                    pr.append(f"descendants of a node are computed as `{text(inner)[:70]}`, not as descendants({dag}, node)")
+                selfadd = extra_self or any(
+                    isinstance(c_, ast.Call) and isinstance(c_.func, ast.Attribute) and c_.func.attr == "add" and c_.args
+                    and text(c_.args[0]) == key and (text(c_.func.value) == f"{D}[{key}]" or (local and text(c_.func.value) == local))
+                    for c_ in own_walk(f.node))
+                if not selfadd:
+                    pr.append("a node is not counted among its own descendants: a forbidden node itself could be an end point")
+                lp = [l for l in fm.cfg.enclosing_loops(fm.cfgn(n)) if isinstance(l, ast.For)]
+                if not lp or text(lp[0].iter) != f"{sdp}.node_ids()" or text(lp[0].target) != key:
+                    pr.append("descendant sets are not computed for every node")
+                else:
+                    hdr_ = fm.cfg.loop_header[lp[0]]
+                    from .c13 import _within as _w2, _tbranch as _tb2
+                    if hdr_.id in _w2(fm, lp[0], _tb2(fm, lp[0]), {fm.cfgn(n).id}):
+                        pr.append("an iteration can skip the computation of the descendant set")
+                out[D] = (n, pr)
+        return out
+
+    def reach_sets():
+        """R = forbidden nodes plus everything that reaches them  ->  {name: (stmt, problems)}"""
+        out = {}
+        for n in own_walk(f.node):
+            if not (isinstance(n, ast.Assign) and isinstance(n.targets[0], ast.Name)):
+                continue
+            v = n.value
+            if text(v) not in (f"set({HOT})", f"{HOT}.copy()", f"{HOT} | set()", f"set() | {HOT}"):
+                continue
+            R = n.targets[0].id
+            pr = []
+            ups = [c_ for c_ in own_walk(f.node) if isinstance(c_, ast.Call) and isinstance(c_.func, ast.Attribute)
+                   and text(c_.func.value) == R and c_.func.attr in ("add", "update")]
+            ups += [c_ for c_ in own_walk(f.node) if isinstance(c_, ast.AugAssign) and text(c_.target) == R]
+            sound = False
+            for u in ups:
+                lps = [l for l in fm.cfg.enclosing_loops(fm.cfgn(u)) if isinstance(l, (ast.For, ast.While))]
+                arg = u.value if isinstance(u, ast.AugAssign) else u.args[0]
+                # (b) union of the ancestors of every forbidden node
+                if lps and isinstance(lps[0], ast.For) and text(lps[0].iter) in (HOT, f"sorted({HOT})", f"list({HOT})") \
+                        and isinstance(arg, ast.Call) and (dotted(arg.func) or "").split(".")[-1] == "ancestors" \
+                        and [text(x) for x in arg.args] == [dag, text(lps[0].target)]:
+                    sound = True
+                    continue
+                # (c) one sweep in reverse topological order
+                if lps and isinstance(lps[0], ast.For) and "topological_sort" in text(lps[0].iter) and "reversed" in text(lps[0].iter):
+                    sound = True
+                    continue
+                # (d) sweeps repeated until nothing changes
+                if any(isinstance(l, ast.While) for l in lps):
+                    sound = True
+                    continue
+                it = text(lps[0].iter) if lps and isinstance(lps[0], ast.For) else "?"
+                pr.append(f"line {u.lineno}: `{R}` is filled in one sweep over `{it[:60]}`; a node whose successors are visited "
+                          f"later is missed, and node ids are not a topological order (a node can get an additional parent that was "
+                          f"created after it)")
+            if not ups or (not sound and not pr):
+                pr.append(f"`{R}` never receives the nodes above the forbidden ones")
+            out[R] = (n, pr)
+        return out
+
+    maps = closure_maps()
+    rsets = reach_sets()
+
+    def reach_form(e: ast.AST, x: str, at):
+        """is `e` the test "x reaches a forbidden node"?  -> (bool, construction-name)"""
+        e = fm.deref(e, at)
+        while isinstance(e, ast.Call) and callee_name(e) == "bool" and len(e.args) == 1:
+            e = e.args[0]
+        if isinstance(e, ast.Compare) and len(e.ops) == 1 and isinstance(e.ops[0], (ast.Gt, ast.NotEq)) and text(e.comparators[0]) == "0" \
+                and isinstance(e.left, ast.Call) and callee_name(e.left) == "len" and e.left.args:
+            e = e.left.args[0]
+        if isinstance(e, ast.BinOp) and isinstance(e.op, ast.BitAnd):
+            for l_, r_ in ((e.left, e.right), (e.right, e.left)):
+                if text(r_) == HOT and isinstance(l_, ast.Subscript) and isinstance(l_.value, ast.Name) and l_.value.id in maps \
+                        and text(l_.slice) == x:
+                    return True, l_.value.id
+        if isinstance(e, ast.UnaryOp) and isinstance(e.op, ast.Not) and isinstance(e.operand, ast.Call) \
+                and callee_name(e.operand) == "isdisjoint" and len(e.operand.args) == 1:
+            l_, r_ = e.operand.func.value, e.operand.args[0]
+            for l2, r2 in ((l_, r_), (r_, l_)):
+                if text(r2) == HOT and isinstance(l2, ast.Subscript) and isinstance(l2.value, ast.Name) and l2.value.id in maps \
+                        and text(l2.slice) == x:
+                    return True, l2.value.id
+        if isinstance(e, ast.Compare) and len(e.ops) == 1 and isinstance(e.ops[0], ast.In) and text(e.left) == x \
+                and isinstance(e.comparators[0], ast.Name) and e.comparators[0].id in rsets:
+            return True, e.comparators[0].id
+        return False, None
+
+    # end-point selection: in the loop over all nodes, a node that reaches a forbidden node is skipped
     probs = []
-    dm = [n for n in own_walk(f.node) if isinstance(n, ast.Assign) and isinstance(n.targets[0], ast.Subscript)
-          and "descendant" in text(n.targets[0].value)]
-    if len(dm) != 1:
-        probs.append("descendant sets are not filled at one place")
-    else:
-        v = dm[0].value
-        local = None
-        if isinstance(v, ast.Name):
-            sd_ = fm.single_def(v.id, fm.cfgn(dm[0]))
-            if sd_:
-                local, v = v.id, sd_[1]
-        inner = v.args[0] if isinstance(v, ast.Call) and callee_name(v) == "set" and v.args else v
-        if not (isinstance(inner, ast.Call) and (dotted(inner.func) or "").endswith("descendants") and len(inner.args) == 2
-                and text(inner.args[0]) == f"{sdp}.dag" and text(inner.args[1]) == text(dm[0].targets[0].slice)):
-            probs.append(f"descendants of a node are computed as `{text(v)[:70]}`, not as nx.descendants(dag, node): hot nodes below "
-                         f"a node can be missed (node ids are not topologically ordered)")
-        key = text(dm[0].targets[0].slice)
-        selfadd = [n for n in own_walk(f.node) if isinstance(n, ast.Call) and isinstance(n.func, ast.Attribute) and n.func.attr == "add"
-                   and ("descendant" in text(n.func.value) or (local and text(n.func.value) == local)) and n.args and text(n.args[0]) == key]
-        if not selfadd:
-            probs.append("a node is not counted among its own descendants: a hot node itself could be an end point")
-        lp = [l for l in fm.cfg.enclosing_loops(fm.cfgn(dm[0])) if isinstance(l, ast.For)]
-        if not lp or text(lp[0].iter) != f"{sdp}.node_ids()":
-            probs.append("descendant sets are not computed for every node")
-    ck.ob("D3", fm, dm[0] if dm else f.node, not probs, "; ".join(probs) if probs else
-          "descendant sets = nx.descendants(dag, s) + {s} for every node", key="descendants")
-    # end-point selection
-    probs = []
-    conts = []
+    used = set()
+    first = None
     for n in own_walk(f.node):
-        if isinstance(n, ast.Continue):
+        if isinstance(n, ast.Continue) and isinstance(fm.f.parents.get(n), ast.If):
             lps = fm.cfg.enclosing_loops(fm.cfgn(n))
-            if lps and isinstance(lps[0], ast.For) and text(lps[0].iter) == f"{sdp}.node_ids()" and "descendant" in text(fm.f.parents.get(n).test if isinstance(fm.f.parents.get(n), ast.If) else ast.Constant(0)):
-                conts.append(n)
-    first = [n for n in conts if "&" in text(fm.f.parents[n].test) and "any(" not in text(fm.f.parents[n].test)]
-    if not first:
-        probs.append("nodes with a hot descendant are not excluded from the end points")
+            if not (lps and isinstance(lps[0], ast.For) and text(lps[0].iter) == f"{sdp}.node_ids()"):
+                continue
+            t = fm.f.parents[n].test
+            if n not in fm.f.parents[n].body:
+                continue
+            ok_, via = reach_form(t, text(lps[0].target), fm.cfgn(fm.f.parents[n]))
+            if ok_:
+                first = n
+                used.add(via)
+    if first is None:
+        probs.append("nodes that reach a forbidden node are not excluded from the end points (no recognised test "
+                     "`descendants-or-self & forbidden` / `node in reach-set` skips them)")
+    ck.ob("D3", fm, first if first is not None else f.node, not probs, "; ".join(probs) if probs else
+          "end points have no forbidden node among their descendants (including themselves)", key="end points")
+    # the construction that the test relies on is complete
+    probs = []
+    stmt = f.node
+    if first is not None:
+        for via in sorted(used):
+            stmt, pr = (maps.get(via) or rsets.get(via))
+            probs += pr
     else:
-        t = fm.f.parents[first[0]].test
-        while isinstance(t, ast.Call) and callee_name(t) == "bool" and len(t.args) == 1:
-            t = t.args[0]
-        if not (isinstance(t, ast.BinOp) and isinstance(t.op, ast.BitAnd) and "descendant" in text(t.left) and "hot" in text(t.right)):
-            probs.append(f"end-point test is `{text(t)}`")
-    ck.ob("D3", fm, first[0] if first else f.node, not probs, "; ".join(probs) if probs else
-          "end points have no hot node among their descendants (including themselves)", key="end points")
+        for via, (st_, pr) in list(maps.items()) + list(rsets.items()):
+            stmt = st_
+            probs += pr
+        if not maps and not rsets:
+            probs.append("no descendant map / reach set is computed")
+    ck.ob("D3", fm, stmt, not probs, "; ".join(probs) if probs else
+          "reachability of forbidden nodes: " + ", ".join(
+              (f"`{v}` = descendants(dag, s) + {{s}} for every node" if v in maps else f"`{v}` = forbidden nodes and all their ancestors")
+              for v in sorted(used)), key="descendants")
